@@ -532,7 +532,8 @@ def gen_cursor(tier, seed):
                     frames = more_frames(seed, pts, F, d, f"cur{d}{n}")
                     base = {"src": "library", "d": d, "cell": cell, "H": H.tolist(), "ppp": [1] * d, "frames": frames, "slice": "jl"}
                     yield dict(base, kind="nn", N=2)
-                    yield dict(base, kind="nn", N=n - 1)
+                    if n - 1 != 2:
+                        yield dict(base, kind="nn", N=n - 1)
                     yield dict(base, kind="cut", rc=lv[1])
                     yield dict(base, kind="type", types=[1 + (i % 2) for i in range(n)], R=[[lv[1], lv[2]], [lv[0], lv[1]]])
 
